@@ -9,7 +9,9 @@ extended router with an IPv4 or IPv6 next hop; counter samples with the counter 
 by `counterLayout`; unknown samples / records as opaque bodies.
 
 Since the F19 repairs the abstract datagram covers every sampled header (any octets, 0 … 1500 of them, under
-any header protocol: the record is reported iff the dissector can break the header down — `dissected`), a
+any header protocol); since F33 every raw-header record is reported with its own four words — header protocol,
+frame length, stripped, header length — and carries the packet iff the dissector can break the header down
+(`dissected`); a
 flow-sample source id with its 24-bit index, and extended-router records of any length (only the two
 lengths of an IPv4 / IPv6 next hop are decoded, the others are skipped like a record of an unknown format).
 -/
@@ -136,8 +138,10 @@ theorem dissected_ok {hdr : Bytes} {proto : Nat} {p : Pkt} (h : dissect hdr prot
 theorem dissected_err {hdr : Bytes} {proto : Nat} {e : Err} (h : dissect hdr proto = .err e) :
     dissected hdr proto = none := by simp [dissected, h]
 
+/-- F33: a raw-header record is reported whatever its octets are — header protocol, frame length, stripped and
+the number of sampled octets as they are on the wire, and the packet the octets dissect to, if any -/
 def expFlowRec : AFlowRec → Option FlowRec
-  | .raw proto _ _ hdr => (dissected hdr proto).map .raw
+  | .raw proto fl st hdr => some (.raw ⟨proto, fl, st, hdr.length, dissected hdr proto⟩)
   | .sw s => some (.sw s)
   | .rtr r => some (.rtr r)
   | .unknown _ _ => none
@@ -213,11 +217,12 @@ theorem readHdr_append (x t : Bytes) (n : Nat) (h : x.length = n) : readHdr n (x
 /-! ## records -/
 
 /-- **raw packet header, any octets**: the record (four words, the sampled octets, XDR padding) is consumed
-exactly, whatever the octets are; the result is the packet they dissect to, or nothing -/
+exactly, whatever the octets are; the result is the four words with the packet the octets dissect to, or with none -/
 theorem decodeSampledHeader_enc (proto fl st : Nat) (hdr : Bytes) (t : Bytes)
     (hwf : (AFlowRec.raw proto fl st hdr).WF) :
     decodeSampledHeader (encFields [4, 4, 4, 4] [proto, fl, st, hdr.length] ++
-      ((hdr ++ List.replicate (pad hdr.length) 0) ++ t)) = .ok (dissected hdr proto, t) := by
+      ((hdr ++ List.replicate (pad hdr.length) 0) ++ t)) =
+      .ok (⟨proto, fl, st, hdr.length, dissected hdr proto⟩, t) := by
   obtain ⟨hfit, hle⟩ := hwf
   unfold decodeSampledHeader
   rw [readFields_enc _ _ _ hfit]
